@@ -95,12 +95,13 @@ def json_schema_property_to_param(param, required):
             "{} {}".format(fk_prefix, _param["doc"]) if _param.get("doc") else fk_prefix
         )
 
+    nullable: bool = _param.pop("nullable", False)
     if (
         name not in required
         and _param.get("typ")
         and "Optional[" not in _param["typ"]
         # Could also parse out a `Union` for `None`
-        or _param.pop("nullable", False)
+        or nullable
     ):
         _param["typ"] = "Optional[{}]".format(_param["typ"])
     if _param.get("default", False) in none_types:
